@@ -85,14 +85,14 @@ static void emit_dacc(char *out, size_t n, const char *section, const cm_dacc_t 
 void cm_emit(cm_model_t *m) {
 	m->board_txt[0] = m->track_txt[0] = m->train_txt[0] = 0;
 	if (m->nb == 0) AP(m->board_txt, "boards: []\n"); else AP(m->board_txt, "boards:\n");
-	for (int i0 = 0; i0 < m->nb; i0++) { int i = m->reverse_boards ? m->nb - 1 - i0 : i0;
+	for (int i0 = 0; i0 < m->nb; i0++) { int i = (m->reverse_boards & 1) ? m->nb - 1 - i0 : i0;
 		const cm_board_t *b = &m->b[i];
 		AP(m->board_txt, "  - id: %s\n    unique-id: 0x%02X%02X%02X%02X%02X%02X%02X\n", b->id, b->uid[0], b->uid[1], b->uid[2], b->uid[3], b->uid[4], b->uid[5], b->uid[6]);
 		if (b->nfeatures) { AP(m->board_txt, "    features:\n"); for (int k = 0; k < b->nfeatures; k++) AP(m->board_txt, "      - number: 0x%02x\n        value: 0x%02x\n", b->features[k].number, b->features[k].value); }
 	}
 	int any = 0; for (int i = 0; i < m->nb; i++) if (m->b[i].in_track) any = 1;
 	if (!any) AP(m->track_txt, "boards: []\n"); else AP(m->track_txt, "boards:\n");
-	for (int i0 = 0; i0 < m->nb; i0++) { int i = m->reverse_boards ? m->nb - 1 - i0 : i0;
+	for (int i0 = 0; i0 < m->nb; i0++) { int i = ((m->reverse_boards & 1) ^ (m->reverse_boards >> 1 & 1)) ? m->nb - 1 - i0 : i0;      /* 1: both files reversed, 2: track file only, 3: board file only */
 		const cm_board_t *b = &m->b[i]; if (!b->in_track) continue;
 		AP(m->track_txt, "  - id: %s\n", b->id);
 		emit_bacc(m->track_txt, sizeof m->track_txt, "points-board", b->pb, b->npb);
